@@ -6,12 +6,8 @@ from .. import load, walkers
 
 
 def subjects():
-    out = []
-    for ctx in (False, True):
-        tree, src = load.runtime_ast(ctx)
-        out.append((f'translator.py:_main_template[ctx={int(ctx)}]', tree, 'sourcer/translator.py'))
-    out.append(('sourcer/parser.py (generated)', load.parse('sourcer/parser.py'), 'sourcer/parser.py'))
-    return out
+    from .. import routes
+    return routes.runtime_subjects()
 
 
 RULES = [
